@@ -212,4 +212,24 @@ def nodeDeviation (sco noRec : Bool) (ops : List NOp) (k j : Nat) (isAnon : Bool
   | some (_, _, e) => e.on isAnon
   | none => (0, 0)
 
+/-! ### the WHOLE state, not only its level -/
+
+/-- The state last recorded for `(T, id)`, all of it (level, time, duration, message, details): the most recent
+`Collect`/`UpdateEvent` wins; deleting the topic forgets. -/
+def lastStateFrom (s0 : Option ES) (ops : List Op) (T id : String) : Option ES :=
+  ops.foldl (fun st op => match op with
+    | .collect T' i l p => if T' = T ∧ i = id then some { id := i, level := l, time := p } else st
+    | .update T' i l p => if T' = T ∧ i = id then some { id := i, level := l, time := p } else st
+    | .deleteTopic T' => if T' = T then none else st
+    | _ => st) s0
+
+def lastState (ops : List Op) (T id : String) : Option ES := lastStateFrom none ops T id
+
+/-- `final-state-equals-uninterrupted`, field by field: every state a topic shows (in memory or in its bucket) is
+the state last recorded for that id — the one an uninterrupted run holds — in all five fields. -/
+def statesOK (shown : String → String → Option ES) (ops : List Op) (keys : List (String × String)) : Bool :=
+  keys.all fun (T, id) => match shown T id with
+    | some e => lastState ops T id == some e
+    | none => true
+
 end Kap.C08
